@@ -9,7 +9,7 @@ VERIF = os.path.dirname(os.path.dirname(os.path.abspath(__file__)))
 BUILD = os.path.join(VERIF, "build")
 LIBSRC = ["mdct", "smallft", "block", "envelope", "window", "lsp", "lpc", "analysis", "synthesis", "psy", "info", "floor1", "floor0",
           "res0", "mapping0", "registry", "codebook", "sharedbook", "lookup", "bitrate", "vorbisfile", "vorbisenc"]
-SIMSRC = ["seams", "corpus", "main", "vfstream", "vfdamage", "vfsim", "vfgen", "pktsim", "encsim", "mtsim", "stubs"]
+SIMSRC = ["seams", "corpus", "craft", "main", "vfstream", "vfdamage", "vfsim", "vfgen", "pktsim", "encsim", "mtsim", "stubs"]
 SAN = "-fsanitize=address,integer-divide-by-zero,bounds -fno-sanitize-recover=integer-divide-by-zero,bounds -fno-omit-frame-pointer"
 CFLAGS = f"-O1 -g -gline-tables-only {SAN} -fsanitize-coverage=trace-pc-guard -DXIPH_VORBIS_VERIF -I{REPO}/include -I{REPO}/lib -w"
 CXXFLAGS = f"-std=c++17 -O1 -g -gline-tables-only {SAN} -I{REPO}/include -I{REPO}/lib -I{VERIF}/sim -Wall -Wno-unused-function -Wno-unused-variable -Wno-unused-but-set-variable"
